@@ -233,6 +233,7 @@ pub fn run_c14(ctx: &Ctx) -> Report {
         }
     });
     rep.merge(r);
+    rep.merge(super::mega::run(ctx, "C14", 1500, 60000));
     if ctx.strict() {
         rep.require("chained_counts_compared", 100);
         rep.require("ok_packets_compared", 100);
@@ -510,6 +511,7 @@ pub fn run_c09(ctx: &Ctx) -> Report {
         }
     });
     rep.merge(r);
+    rep.merge(super::mega::run(ctx, "C09", 1500, 60000));
     if ctx.strict() {
         rep.require("definitions_compared", 1000);
         rep.require("prepare_ok_headers_compared", 100);
